@@ -17,11 +17,14 @@
 (*   prodcons  n producers, k consumers (range and v, ok forms), close         *)
 (*   host      n host goroutines call the same script function F               *)
 (*   interps   n interpreters run the same program in parallel                 *)
-EXTENDS Chan, Json
+(*                                                                             *)
+(* This module is pure data (programs, instances, the output each family       *)
+(* defines); Chan.tla EXTENDS it and runs the programs.  (The tables are        *)
+(* referenced by name rather than passed as CONSTANTS: TLC pre-evaluates a      *)
+(* constant definition once, but re-evaluates one that is substituted for a     *)
+(* CONSTANT in a cfg or INSTANCE at every use -- measured: 80 times per state.) *)
+EXTENDS Integers, Sequences, FiniteSets, TLC
 
-\* The constants of Chan are bound in the cfg files:  Prog <- TProg  Params <- TParams
-\* Vars <- TVars  Starts <- TStarts  HostNames <- THost  IPs <- TIPs  WgNames <- TWg
-\* MuNames <- TMu  GlobNames <- TGlob
 CONSTANTS Family, NSet, KSet, BSet, MVal, MaxIP
 
 C(x) == <<"c", x>>
@@ -40,7 +43,7 @@ FnNames == {"main_pipeline", "main_pool", "main_drain", "main_privsel", "main_co
             "closer", "sworker", "feeder", "cworker", "nworker", "iworker", "imain", "producer",
             "pcloser", "consumer", "hostcall", "hgen"}
 
-TParams == [f \in FnNames |->
+TParamsL == [f \in FnNames |->
   CASE f \in {"stage"}    -> <<"in", "out", "id">>
     [] f \in {"gen"}      -> <<"out", "m">>
     [] f \in {"worker"}   -> <<"id", "jobs", "res">>
@@ -80,7 +83,7 @@ PoolHead == <<
   (* 8*) <<"jmp", 5>>,
   (* 9*) <<"go", "gen", <<V("jobs"), V("m")>>>> >>
 
-TProg == [f \in FnNames |->
+TProgL == [f \in FnNames |->
   CASE f = "main_pipeline" -> (<<
       (* 1*) <<"make", "first", V("b")>>,
       (* 2*) <<"set", "prev", V("first")>>,
@@ -300,6 +303,12 @@ TProg == [f \in FnNames |->
       (* 9*) <<"wgdone", "W">>,
       (*10*) <<"ret">> >> )]
 
+\* TLC keeps [x \in S |-> e] as an unevaluated function and re-evaluates e at every
+\* application; combining with the empty function makes the tables explicit values,
+\* computed once when TLC pre-evaluates constant definitions.
+TProg == TProgL @@ <<>>
+TParams == TParamsL @@ <<>>
+
 \* ------------------------------------------------------------------ instances
 Mk(n, k, b) == [t |-> Family, fn |-> "main_" \o Family, args |-> <<n, k, b, MVal>>,
                 n |-> n, k |-> k, b |-> b, m |-> MVal]
@@ -311,10 +320,6 @@ TWg == {"W", "P", "H"}
 TMu == {"MU"}
 TGlob == {"cnt", "total"}
 
-\* simulation (larger n): no stuttering at the end, deadlock freedom as an invariant
-SpecSim == Init /\ [][Step1]_vars
-DeadlockFree == (~Terminal /\ ~Stopped) => ENABLED Step1
-
 \* ------------------------------------------------------- the output each family defines
 RECURSIVE Pipe(_, _, _)
 Pipe(v, i, k) == IF i > k THEN v ELSE Pipe(2 * v + i, i + 1, k)
@@ -325,26 +330,17 @@ SqSum(m) == Sum([j \in 1..m |-> Sq(j)], m)
 TagSum(id, m) == Sum([j \in 1..m |-> id * 10 + j], m)
 TagSums(n, m) == Sum([i \in 1..n |-> TagSum(i, m)], n)
 
-Multiset == inst.t \in {"pool", "drain", "privsel", "host", "interps"}
+MultisetOf(i) == i.t \in {"pool", "drain", "privsel", "host", "interps"}
 
-Expect ==
-    LET n == inst.n  k == inst.k  m == inst.m IN
-    CASE inst.t = "pipeline" -> [j \in 1..m |-> <<Pipe(j, 1, k)>>]
-      [] inst.t \in {"pool", "drain"} -> [j \in 1..m |-> <<1, Sq(j)>>] \o << <<2, SqSum(m)>> >>
-      [] inst.t = "privsel"  -> [i \in 1..n |-> <<i, TagSum(i, m)>>]
-      [] inst.t \in {"counter", "nolock"} -> << <<n * m>> >>
-      [] inst.t = "prodcons" -> << <<TagSums(n, m)>> >>
-      [] inst.t = "host"     -> [i \in 1..n |-> <<i, TagSum(i, m)>>] \o << <<0, TagSums(n, m)>> >>
-      [] inst.t = "interps"  -> [i \in 1..n |-> <<i, 2 * m * i>>]
+ExpectOf(i) ==
+    LET n == i.n  k == i.k  m == i.m IN
+    CASE i.t = "pipeline" -> [j \in 1..m |-> <<Pipe(j, 1, k)>>]
+      [] i.t \in {"pool", "drain"} -> [j \in 1..m |-> <<1, Sq(j)>>] \o << <<2, SqSum(m)>> >>
+      [] i.t = "privsel"  -> [x \in 1..n |-> <<x, TagSum(x, m)>>]
+      [] i.t \in {"counter", "nolock"} -> << <<n * m>> >>
+      [] i.t = "prodcons" -> << <<TagSums(n, m)>> >>
+      [] i.t = "host"     -> [x \in 1..n |-> <<x, TagSum(x, m)>>] \o << <<0, TagSums(n, m)>> >>
+      [] i.t = "interps"  -> [x \in 1..n |-> <<x, 2 * m * x>>]
 
 BagOf(s) == [x \in {s[i] : i \in DOMAIN s} |-> Cardinality({i \in DOMAIN s : s[i] = x})]
-
-\* Every terminal state carries the output the family defines: the instance is
-\* schedule-independent, and Expect is THE output the real runs are compared with.
-OutputDeterminism ==
-    Terminal => IF Multiset THEN BagOf(out) = BagOf(Expect) ELSE out = Expect
-
-Emit == Terminal =>
-    PrintT(<<"BEH", ToJson([t |-> inst.t, n |-> inst.n, k |-> inst.k, b |-> inst.b, m |-> inst.m,
-                            multiset |-> Multiset, out |-> out, expect |-> Expect])>>)
 ===============================================================================
